@@ -640,6 +640,27 @@ func coq(k *Case) string {
 	)
 }
 
+// beforeIsTree: the disk handed to the model lists no path twice and no file
+// below another file (under the tree list of the same case).  Model.run_case
+// decides the same thing (case_before_ok) and refuses the case otherwise; the
+// walk of a real directory always passes.
+func beforeIsTree(k *Case) bool {
+	in := map[PathRef]bool{}
+	for _, e := range k.Before {
+		p := PathRef{e.Area, e.Rel}
+		if in[p] {
+			return false
+		}
+		in[p] = true
+	}
+	for _, t := range k.Tree {
+		if in[t.Dir] && in[t.Below] {
+			return false
+		}
+	}
+	return true
+}
+
 // ---------------------------------------------------------------- main
 
 func main() {
@@ -664,6 +685,9 @@ func main() {
 		"probe transactions (let through: lunar-on-request at one point, lunar-on-response with the same id at a later one -- " +
 		"the next point, after the next publication, at the end); distinct = distinct (inputs, observables); non-trivial = the " +
 		"update failed after at least one fs.store / fs.remove call had been made, or succeeded and changed the engine view")
+	o.Note("Model.run_case first decides that the before disk of the case is a file system (no path listed twice, no file below " +
+		"another file under the tree list of the same case: case_before_ok = distinct_keysb && treeb) and answers mismatch " +
+		"(result code 3) otherwise: C08_accepted_case_disk_is_a_tree")
 	s := newSut()
 	s.calibrate(o)
 	var k Case
@@ -738,6 +762,11 @@ func (s *sut) runCase(o *c.Out, k *Case) {
 			o.Count(fmt.Sprintf("sibling_prefix_name_status=%d", k.Status))
 			break
 		}
+	}
+	if !beforeIsTree(k) {
+		// Model.run_case answers with a mismatch (result code 3) on such a case
+		// whatever the gateway did; say why in the distribution
+		o.Count("before_disk_not_a_tree(model refuses the case: code 3)")
 	}
 	idx := o.Case("update", coq(k), k, nontrivial)
 	o.MonitorChecked(1)
